@@ -558,7 +558,7 @@ def tag_of(case, o):
 
 
 def run(ck: common.Check):
-    ck.prove(["GeffProps.C20"])
+    ck.prove(["GeffProps.C20", "GeffProps.C20Links"])
     drv = ck.driver()      # built right after the translation so that it is linked against the same Gen files
     ck.rule = ("cases = corpus + every (directed, n<=N, m<=n(n-1)+2) through create_dummy_in_mem_geff + every subset of "
                "{t,z,y,x} x include_varlength x include_missing x directed x 7 sizes through create_dummy_in_mem_geff and "
